@@ -116,14 +116,10 @@ def _attribute(row, candidates):
     readlen = len(row[4]) + len(row[5]) + len(row[6])
     fits = []
     for a in candidates:
-        ok = False
-        if a["five_prime_end"]:
-            ok = ok or _fit_distance(seg, a["five_prime_end"]["sequence"], start == 0, False) <= errors
-        if a["three_prime_end"]:
-            ok = ok or _fit_distance(seg, a["three_prime_end"]["sequence"], False, end == readlen) <= errors
-        if a["five_prime_end"] and a["three_prime_end"]:
-            ok = ok or _fit_distance(seg, a["five_prime_end"]["sequence"], start == 0, end == readlen) <= errors
-        if ok:
+        # a necessary condition only (search parameters such as ';anywhere' allow partial occurrences at
+        # either end of the read): the matched bases fit some stretch of the adapter within the error count
+        seqs = [e["sequence"] for e in (a["five_prime_end"], a["three_prime_end"]) if e]
+        if any(_fit_distance(seg, s_, True, True) <= errors for s_ in seqs):
             fits.append(a["_uid"])
     if len(fits) != 1:
         raise Ambiguous(row[7])
